@@ -66,9 +66,9 @@ PROPS = {
                       "scratch capacity. The same definitions run as a Float twin bit-exact with kira, and the real code is rendered in three "
                       "further (buffer size, callback partition, channel count) configurations per static case and compared frame by frame",
         "level_note": "over the reals (per-chunk float rounding of interpolated gains is outside; with constant parameters kira's gains are "
-                      "bit-constant and the real-code oracle compares bit-equal); on_start_processing between callbacks is covered by the "
-                      "real-code oracle and the twin, not by the theorem (it is partition-neutral only for components whose "
-                      "on_start_processing does not change audio state and while no sound finishes); real sounds/effects being "
+                      "bit-constant and the real-code oracle compares bit-equal); whole device callbacks (on_start_processing + process) are covered by "
+                      "C11_device_callbacks_partition_invariant when nothing is in flight and the components' on_start_processing is "
+                      "neutral and no sound finishes; finishing sounds are covered by the real-code oracle and the twin only; real sounds/effects being "
                       "chunk-homomorphic is their own models' business (C04/C09/C13) - the probes are proved to be",
         "assumptions": [
             "sounds/effects are chunk-homomorphic for constant dt and Info, and do not resize the slice they are lent",
